@@ -460,3 +460,164 @@ pub proof fn lemma_pairs_apply_map(m: Map<String, String>, ps: Seq<(String, Stri
     lemma_pairs_are_map(m, ps, k_bold()); lemma_pairs_are_map(m, ps, k_italics()); lemma_pairs_are_map(m, ps, k_underscore());
     lemma_pairs_are_map(m, ps, k_strikethrough()); lemma_pairs_are_map(m, ps, k_reverse()); lemma_pairs_are_map(m, ps, k_blink());
 }
+
+// ---- C09: every reported cell has a documented colour name or a hexadecimal colour ----
+pub open spec fn named_colour(s: Seq<char>) -> bool {
+    s == "default"@ || s == "black"@ || s == "red"@ || s == "green"@ || s == "brown"@ || s == "blue"@ || s == "magenta"@ || s == "cyan"@
+    || s == "white"@ || s == "brightblack"@ || s == "brightred"@ || s == "brightgreen"@ || s == "brightbrown"@ || s == "brightblue"@
+    || s == "brightmagenta"@ || s == "brightcyan"@ || s == "brightwhite"@
+}
+/// six hexadecimal digits (uninterpreted, like hex6: std formatting is not modelled)
+pub uninterp spec fn is_hex_colour(s: Seq<char>) -> bool;
+/// TRUSTED (std formatting): `{:02x}{:02x}{:02x}` of three values <= 255 is six hexadecimal digits
+#[verifier::external_body]
+pub proof fn axiom_hex6_is_hex(r: int, g: int, b: int)
+    requires 0 <= r <= 255, 0 <= g <= 255, 0 <= b <= 255,
+    ensures is_hex_colour(hex6(r, g, b)) {}
+pub open spec fn valid_colour(s: Seq<char>) -> bool { named_colour(s) || is_hex_colour(s) }
+pub open spec fn cell_cols_ok(c: Cell) -> bool { valid_colour(c.fg) && valid_colour(c.bg) }
+#[verifier::opaque]
+pub open spec fn saves_cols_ok(sv: Seq<Savepoint>) -> bool {
+    forall|i: int| #![trigger sv[i]] 0 <= i < sv.len() ==> cell_cols_ok(cv(sv[i].cursor.attr))
+}
+pub open spec fn cols_ok(s: Screen) -> bool {
+    &&& cell_cols_ok(cv(s.cursor.attr))
+    &&& forall|y: u32, x: u32| #![trigger obs(s, y, x)] y < s.lines && x < s.columns ==> cell_cols_ok(obs(s, y, x))
+    &&& saves_cols_ok(s.savepoints@)
+}
+pub proof fn lemma_palette_valid(n: int)
+    requires 0 <= n < 256,
+    ensures is_hex_colour(palette(n))
+{
+    let t = palette_rgb(n);
+    axiom_hex6_is_hex(t.0, t.1, t.2);
+}
+pub proof fn lemma_sgr_step_cols(attrs: Seq<u32>, i: int, a: Cell, dflt: Cell)
+    requires 0 <= i < attrs.len(), cell_cols_ok(a), cell_cols_ok(dflt),
+    ensures cell_cols_ok(sgr_step(attrs, i, a, dflt).1)
+{
+    let c = attrs[i];
+    if c == 38 || c == 48 {
+        let n = attrs.len() as int;
+        if i + 1 < n && attrs[i + 1] == 5 && i + 2 < n && attrs[i + 2] < 256 { lemma_palette_valid(attrs[i + 2] as int); }
+        if i + 1 < n && attrs[i + 1] == 2 && i + 4 < n && attrs[i + 2] <= 255 && attrs[i + 3] <= 255 && attrs[i + 4] <= 255 {
+            axiom_hex6_is_hex(attrs[i + 2] as int, attrs[i + 3] as int, attrs[i + 4] as int);
+        }
+    }
+}
+pub proof fn lemma_sgr_run_cols(attrs: Seq<u32>, i: int, a: Cell, dflt: Cell)
+    requires cell_cols_ok(a), cell_cols_ok(dflt),
+    ensures cell_cols_ok(sgr_run(attrs, i, a, dflt))
+    decreases attrs.len() - i
+{
+    if 0 <= i < attrs.len() {
+        lemma_sgr_step_cols(attrs, i, a, dflt);
+        let st = sgr_step(attrs, i, a, dflt);
+        if st.0 > i { lemma_sgr_run_cols(attrs, st.0, st.1, dflt); }
+    }
+}
+
+// ---- C09 for draw: each step relation of draw's contract preserves colour validity (lemmas over the relations) ----
+pub open spec fn cols_frame(a: Screen, b: Screen) -> bool {
+    a.lines == b.lines && a.columns == b.columns && a.cursor.attr == b.cursor.attr && a.savepoints@ == b.savepoints@
+}
+pub proof fn lemma_cols_same_grid(a: Screen, b: Screen)
+    requires cols_ok(a), cols_frame(a, b), obs_same(b, a),
+    ensures cols_ok(b)
+{
+    assert forall|y: u32, x: u32| #![trigger obs(b, y, x)] y < b.lines && x < b.columns implies cell_cols_ok(obs(b, y, x)) by {
+        let c = obs(a, y, x);
+    }
+}
+/// colour validity is preserved from a to b (opaque: SGR's body is verified without the grid quantifier in its context)
+#[verifier::opaque]
+pub open spec fn cols_pres(a: Screen, b: Screen) -> bool { cols_ok(a) ==> cols_ok(b) }
+/// only the cursor rendition changed (SGR)
+pub proof fn lemma_cols_attr_change(a: Screen, b: Screen)
+    requires a.lines == b.lines, a.columns == b.columns, a.savepoints@ == b.savepoints@, obs_same(b, a),
+        cell_cols_ok(cv(a.cursor.attr)) ==> cell_cols_ok(cv(b.cursor.attr)),
+    ensures cols_pres(a, b)
+{
+    reveal(cols_pres);
+    if cols_ok(a) {
+        assert forall|y: u32, x: u32| #![trigger obs(b, y, x)] y < b.lines && x < b.columns implies cell_cols_ok(obs(b, y, x)) by {
+            let c = obs(a, y, x);
+        }
+    }
+}
+pub proof fn lemma_linefeed_cols(o: Screen, n: Screen)
+    requires cols_ok(o), margins_ok(o.margins, o.lines), linefeed_post(o, n),
+    ensures cols_ok(n), margins_ok(n.margins, n.lines)
+{
+    reveal(linefeed_post);
+    assert forall|y: u32, x: u32| #![trigger obs(n, y, x)] y < n.lines && x < n.columns implies cell_cols_ok(obs(n, y, x)) by {
+        let c = obs(o, y, x); let c2 = obs(o, (y + 1) as u32, x);
+    }
+}
+pub proof fn lemma_wrap_cols(a: Screen, w: int, b: Screen)
+    requires cols_ok(a), margins_ok(a.margins, a.lines), wrap_rel(a, w, b),
+    ensures cols_ok(b), margins_ok(b.margins, b.lines)
+{
+    if a.cursor.x == a.columns && a.mode@.contains(DECAWM) {
+        let m = choose|m: Screen| #[trigger] cr_mark(a, m) && linefeed_post(m, b);
+        lemma_cols_same_grid(a, m);
+        lemma_linefeed_cols(m, b);
+    } else {
+        lemma_cols_same_grid(a, b);
+    }
+}
+pub proof fn lemma_irm_cols(a: Screen, w: int, b: Screen)
+    requires cols_ok(a), margins_ok(a.margins, a.lines), irm_rel(a, w, b),
+    ensures cols_ok(b), margins_ok(b.margins, b.lines)
+{
+    if a.mode@.contains(IRM) && w > 0 {
+        reveal(ich_post);
+        assert forall|y: u32, x: u32| #![trigger obs(b, y, x)] y < b.lines && x < b.columns implies cell_cols_ok(obs(b, y, x)) by {
+            let c = obs(a, y, x); let c2 = obs(a, y, (x - eff(Some(w as u32))) as u32);
+        }
+    } else {
+        lemma_cols_same_grid(a, b);
+    }
+}
+pub proof fn lemma_put_cols(a: Screen, c: char, w: int, b: Screen)
+    requires cols_ok(a), margins_ok(a.margins, a.lines), put_rel(a, c, w, b),
+    ensures cols_ok(b), margins_ok(b.margins, b.lines)
+{
+    assert forall|y: u32, x: u32| #![trigger obs(b, y, x)] y < b.lines && x < b.columns implies cell_cols_ok(obs(b, y, x)) by {
+        let k = obs(a, y, x);
+    }
+}
+pub proof fn lemma_comb_cols(a: Screen, c: char, b: Screen)
+    requires cols_ok(a), margins_ok(a.margins, a.lines), comb_rel(a, c, b),
+    ensures cols_ok(b), margins_ok(b.margins, b.lines)
+{
+    assert forall|y: u32, x: u32| #![trigger obs(b, y, x)] y < b.lines && x < b.columns implies cell_cols_ok(obs(b, y, x)) by {
+        let k = obs(a, y, x);
+    }
+}
+pub proof fn lemma_draw_char_cols(a: Screen, c: char, b: Screen)
+    requires cols_ok(a), margins_ok(a.margins, a.lines), draw_char(a, c, b),
+    ensures cols_ok(b), margins_ok(b.margins, b.lines)
+{
+    let w = width_of(c);
+    if w == 0 && !is_comb(c) {
+        lemma_cols_same_grid(a, b);
+    } else {
+        let (a1, a2) = choose|a1: Screen, a2: Screen| #![trigger wrap_rel(a, w, a1), irm_rel(a1, w, a2)]
+            wrap_rel(a, w, a1) && irm_rel(a1, w, a2) && (if w >= 1 { put_rel(a2, c, w, b) } else { comb_rel(a2, c, b) });
+        lemma_wrap_cols(a, w, a1);
+        lemma_irm_cols(a1, w, a2);
+        if w >= 1 { lemma_put_cols(a2, c, w, b); } else { lemma_comb_cols(a2, c, b); }
+    }
+}
+pub proof fn lemma_draw_seq_cols(a: Screen, t: Seq<char>, b: Screen)
+    requires cols_ok(a), margins_ok(a.margins, a.lines), draw_seq(a, t, b),
+    ensures cols_ok(b), margins_ok(b.margins, b.lines)
+    decreases t.len()
+{
+    if t.len() > 0 {
+        let m = choose|m: Screen| #![trigger draw_char(m, t.last(), b)] draw_seq(a, t.drop_last(), m) && draw_char(m, t.last(), b);
+        lemma_draw_seq_cols(a, t.drop_last(), m);
+        lemma_draw_char_cols(m, t.last(), b);
+    }
+}
